@@ -138,3 +138,18 @@ package dns
 //@ extern (net.IPMask).Size
 //@   ensures ret0 >= 0 && ret1 >= 0
 //@   pure
+
+// Interfaces implemented outside the module (trusted): a hash never fails and does not touch the data it
+// is fed; a crypto.Signer does not write to the buffers of its caller.
+//@ iface hash.Hash.Write
+//@   ensures ret1 == nil && ret0 == len(p)
+//@   pure
+//@ iface hash.Hash.Sum
+//@   ensures len(ret0) >= len(b)
+//@   pure
+//@ iface crypto.Signer.Sign
+//@   pure
+
+//@ extern (*math/big.Int).Bytes
+//@   fresh
+//@   pure
